@@ -1,27 +1,37 @@
 #!/usr/bin/env bash
-# usage: tools/kill_matrix.sh [tier] — runs every seeded defect against the check of its own property
-# (plus the extra checks listed in EXTRA) and writes seeded/KILL_MATRIX.md. /repo must be clean and not in use.
-tier="${1:-quick}"
+# usage: tools/kill_matrix.sh [tier] [jobs] — runs every seeded defect against the check of its own property
+# (plus the extra checks listed in EXTRA) in scratch worktrees (tools/try_seed_scratch.sh: /repo is not touched),
+# `jobs` at a time, and writes seeded/KILL_MATRIX.md.
+tier="${1:-quick}"; jobs="${2:-3}"
 cd "$(dirname "$0")/.."
-declare -A EXTRA=( [C17-2]="C15" [C20-2]="C15" [C01-2]="C03" [C03-1]="C01" [C06-2]="C10" [C10-1]="C06" [C02-2]="C01" [C05-1]="C02" [C05-2]="C02" [C02-1]="C05" )
+declare -A EXTRA=( [C17-2]="C15" [C20-2]="C15" [C01-2]="C03" [C03-1]="C01" [C06-2]="C10" [C10-1]="C06" [C02-2]="C01" [C05-1]="C02" [C05-2]="C02" [C02-1]="C05" [C01-3]="C09 C12" [C17-4]="C20" [C20-4]="C17" [C09-3]="C08" [C12-4]="C08" )
+tmp=$(mktemp -d /tmp/km.XXXXXX)
+list=()
+for d in seeded/C*-*/; do
+  seed=$(basename "$d"); prop=${seed%-*}
+  for p in $prop ${EXTRA[$seed]:-}; do list+=("$seed $p"); done
+done
+run_one() {
+  seed="$1"; p="$2"
+  res=$(tools/try_seed_scratch.sh "$seed" "$p" "$tier" 2>&1)
+  code=$(echo "$res" | sed -n 's/.*exit=\([0-9]*\).*/\1/p' | tail -1)
+  wall=$(echo "$res" | sed -n 's/.*wall=\([0-9]*s\).*/\1/p' | tail -1)
+  detail=$(echo "$res" | grep -m1 "detail:" | sed 's/^ *detail: //' | cut -c1-140 | tr '|' '/')
+  case "$code" in 1) r="CAUGHT";; 0) r="missed";; 3) r="patch does not apply";; *) r="infrastructure ($code)";; esac
+  echo "| $seed | $p | $r | $wall | $detail |" > "$tmp/$seed-$p.row"
+  echo "$seed $p $r $wall"
+}
+export -f run_one; export tier tmp
+printf '%s\n' "${list[@]}" | xargs -P "$jobs" -L 1 bash -c 'run_one $0 $1'
 out=seeded/KILL_MATRIX.md
 {
 echo "# Kill matrix of the seeded defects ($tier tier, VERIF_SEED=${VERIF_SEED:-0})"
 echo
-echo "Produced by tools/kill_matrix.sh: each patch is applied to /repo, the check is run, /repo is restored."
+echo "Produced by tools/kill_matrix.sh: each patch is applied to a scratch worktree of /repo, a scratch copy of /verif is"
+echo "pointed at it, the check is run there. Seeds n = 1, 2 are the first round, n = 3, 4 the second."
 echo
 echo "| seed | check | result | wall | first detail |"
 echo "|---|---|---|---|---|"
+for x in "${list[@]}"; do set -- $x; cat "$tmp/$1-$2.row" 2>/dev/null || echo "| $1 | $2 | not run | | |"; done
 } > "$out"
-for d in seeded/C*-*/; do
-  seed=$(basename "$d"); prop=${seed%-*}
-  for p in $prop ${EXTRA[$seed]:-}; do
-    res=$(tools/try_seed.sh "$seed" "$p" "$tier" 2>&1)
-    code=$(echo "$res" | sed -n 's/.*exit=\([0-9]*\).*/\1/p' | tail -1)
-    wall=$(echo "$res" | sed -n 's/.*wall=\([0-9]*s\).*/\1/p' | tail -1)
-    detail=$(echo "$res" | grep -m1 "detail:" | sed 's/^ *detail: //' | cut -c1-140 | tr '|' '/')
-    case "$code" in 1) r="CAUGHT";; 0) r="missed";; 3) r="patch does not apply";; *) r="infrastructure ($code)";; esac
-    echo "| $seed | $p | $r | $wall | $detail |" >> "$out"
-    echo "$seed $p $r $wall"
-  done
-done
+rm -rf "$tmp"
